@@ -1270,7 +1270,8 @@ def seeded_fit(m, data, seed):
     try:
         np.random.seed(seed)
         with np.errstate(all='ignore'):
-            m.fit(np.array(data, dtype=float))
+            # (an integer array stays an integer array: `np.unique(X)[0]` is then a numpy integer)
+            m.fit(data if isinstance(data, np.ndarray) and data.dtype.kind in 'iub' else np.array(data, dtype=float))
         return None
     except Exception as e:  # noqa
         return f'{type(e).__name__}: {str(e)[:80]}'
@@ -1314,7 +1315,7 @@ def history_comparable(spec):
     return True
 
 
-def examine_history(ctx, spec, history, seeds, rng, counts, deep=False):
+def examine_history(ctx, spec, history, seeds, rng, counts, deep=False, with_laws=True):
     """fit A; query; [fit K; query;] fit B on ONE instance.  Afterwards every query must be a function of the
     parameters of the LAST fit: bitwise equal to a twin without history, (where comparable) to a fresh
     instance fitted on the last sample, and the C03 laws must hold."""
@@ -1337,6 +1338,7 @@ def examine_history(ctx, spec, history, seeds, rng, counts, deep=False):
             return
         seen.add(key)
         ctx.fail_input(entry(spec['cls'], kind), dict(inp, spec=spec, history=[[float(v) for v in d] for d in history],
+                                                      dtypes=[str(np.asarray(d).dtype) for d in history],
                                                       seeds=list(seeds), law=kind), obs, req, key)
     refs = []
     try:
@@ -1364,8 +1366,21 @@ def examine_history(ctx, spec, history, seeds, rng, counts, deep=False):
                 report(f'{q}:depends-on-fit-history', {'query': LONG[q], 'reference': what}, obs,
                        f'{LONG[q]} after fit(A); queries; fit(B) equals (bitwise) that of {what}',
                        key=f'{cls}.{LONG[q]}:depends-on-fit-history')
+        # sample: the same global stream must give the same draws
+        st = np.random.get_state()
+        np.random.seed(seeds[-1] % (2 ** 31))
+        a = call(m.sample, 6)
+        np.random.seed(seeds[-1] % (2 ** 31))
+        b = call(ref.sample, 6)
+        np.random.set_state(st)
+        counts['checks'] += 6
+        if not (a[0] == b[0] and (bit_equal(a[1], b[1]) if a[0] == 'ok' else True)):
+            report('sample:depends-on-fit-history', {'query': 'sample', 'reference': what},
+                   {'after_history': str(a[1])[:100], 'reference': str(b[1])[:100]},
+                   f'sample (same global seed) after the fit history equals that of {what}',
+                   key=f'{cls}.sample:depends-on-fit-history')
     # the laws themselves on the refitted instance (coherence of pdf / cdf / ppf / logpdf with each other)
-    if spec['cls'] != 'TruncatedGaussian' or 'minimum' in spec['opts']:
+    if with_laws and (spec['cls'] != 'TruncatedGaussian' or 'minimum' in spec['opts']):
         def report2(kind, inp, obs, req):
             key = class_key(spec, m, kind)
             if key in KNOWN_SINGLE_FIT:
@@ -1410,6 +1425,40 @@ def search_history(ctx, rng, counts, deep):
                     spec['opts']['sample_size'] = rng.choice([10, 40, 120])
             seeds = [rng.randrange(2 ** 31) for _ in hist]
             examine_history(ctx, spec, hist, seeds, rng, counts, deep)
+
+
+CONSTANTS = [('int 0', 0, 'int64'), ('0.0', 0.0, 'float64'), ('-0.0', -0.0, 'float64'), ('int 5', 5, 'int64'),
+             ('-2.5', -2.5, 'float64'), ('1e-300', 1e-300, 'float64'), ('int 1', 1, 'int64'), ('1.0', 1.0, 'float64')]
+
+
+def search_const_history(ctx, rng, counts, deep):
+    """constant(c) -> non-constant and non-constant -> constant(c) -> non-constant on ONE instance, for falsy and
+    truthy constants (0, 0.0, -0.0, 5, -2.5, 1e-300, 1; integer and float arrays): after the last fit the model
+    answers like a fresh one fitted on the last data (the constant overrides must be gone whatever `c` is)."""
+    zeros = [c for c in CONSTANTS if c[1] == 0]
+    others = [c for c in CONSTANTS if c[1] != 0]
+    for cls in ALL + ('Univariate',):
+        if deep:
+            plan = [(c, two) for c in CONSTANTS for two in (False, True)]
+        else:
+            plan = [(zeros[0], False), (rng.choice(zeros[1:]), False), (rng.choice(zeros), True),
+                    (rng.choice(others), rng.random() < 0.5)]
+        for (label, c, dt), three in plan:
+            k = np.full(rng.choice([5, 12]), c, dtype=dt)
+            last = gen_data(rng, n=rng.choice([8, 20, 60]))[1]
+            hist = [k, last]
+            if three:
+                hist.insert(0, gen_data(rng, n=rng.choice([8, 20]))[1])
+            spec = {'cls': cls, 'opts': {}}
+            if cls == 'TruncatedGaussian':
+                allv = np.concatenate([np.asarray(h, dtype=float) for h in hist])
+                spec['opts'] = {'minimum': float(allv.min()) - 1.0, 'maximum': float(allv.max()) + 1.0}
+            elif cls == 'GaussianKDE':
+                spec['opts'] = {'sample_size': rng.choice([10, 40])}
+            elif cls == 'Univariate':
+                spec['opts'] = {'candidates': rng.sample(list(ALL), 2)}
+            ctx.count(f'const-history.{label}')
+            examine_history(ctx, spec, hist, [rng.randrange(2 ** 31) for _ in hist], rng, counts, deep, with_laws=False)
 
 
 # ------------------------------------------------------------------------ one large batch
@@ -2265,6 +2314,7 @@ def search(ctx, deep):
     search_states(ctx, ctx.rng('search-states'), counts, deep)
     search_shared(ctx, ctx.rng('search-shared'), counts, deep)
     search_history(ctx, ctx.rng('search-history'), counts, deep)
+    search_const_history(ctx, ctx.rng('search-const-history'), counts, deep)
     search_batch(ctx, ctx.rng('search-batch'), counts, deep)
     for rep in range(reps):
         for cls in ALL + ('Univariate',):
@@ -2312,7 +2362,8 @@ def replay(ctx, payload):
     counts = {'checks': 0, 'failures': 0}
     before = len(ctx.failing)
     if 'history' in inp:
-        examine_history(ctx, inp['spec'], [np.array(d, dtype=float) for d in inp['history']], inp['seeds'],
+        dts = inp.get('dtypes') or ['float64'] * len(inp['history'])
+        examine_history(ctx, inp['spec'], [np.array(d, dtype=float).astype(t) for d, t in zip(inp['history'], dts)], inp['seeds'],
                         vc.rng_for(0, 'replay'), counts, True)
         return any(f['class'] == payload.get('class') for f in ctx.failing[before:])
     if inp.get('law') == 'composition':
